@@ -28,7 +28,9 @@ def main():
         if pkg.startswith("ipmi"): d = "pkg/ipmi"
         elif pkg.startswith("dcmi"): d = "pkg/dcmi"
         elif pkg == "main": d = "cmd/seeddemo"
-        else: d = "."
+        elif pkg in ("bmc", "bmc_test"): d = "."
+        else: d = "seeddemo_" + re.sub(r"\W", "", pkg)     # a self-contained external test package of its own
+
         tests = sorted(set(re.findall(r"^func (Test\w+)\(", txt, re.M)))
         runpat = "|".join(tests) if tests else "."
         rc, out = sh("git apply %s" % os.path.join(src, "patch.diff"), wt)
